@@ -17,7 +17,14 @@ PROP = {
             "(fixed shapes + random trees predicted to compile), driven through data patterns built by construction: equal pairs, pairs differing in "
             "exactly one residue at every position (quick: 12 positions incl. first/last/modulus boundary), pairs equal in exactly one residue, unrelated "
             "pairs; poly -> bool on zero / one-hot / random; poly_p on identical storage; the former defect witnesses {1,2,3} vs {1,5,6} / {4,5,6} and "
-            "{1..8} vs {1,9,3,9,5,9,7,9}; 3 limbs x {plain, serial, sse, avx2}; class = backend:mode:root:difference class",
+            "{1..8} vs {1,9,3,9,5,9,7,9}; 3 limbs x {plain, serial, sse, avx2}. DEGREES: the full shape list at degree 16 (thorough: 32 too) and a reduced "
+            "list (every root kind x every evaluation mode x poly / poly_p / expression operand) at the degrees of gen_expr.degree_plan, derived from the "
+            "backend's register width E: E, 3E, 64+E, 96, 128-E, 200 (quick; e.g. 1, 3, 65, 96, 127, 200 for the scalar builds) and in thorough also 2E, 5E, "
+            "24, 40, 64-E, 64, 72, 128, 128+E, 192, 256+E, 320, 512/1024 and degrees no register width divides (only narrower-mode roots exist there); 2 moduli "
+            "(1 for the largest). POSITIONS: per shape and degree, one `bsweep` line = the difference (resp. the only agreement) placed at EVERY coefficient "
+            "position in turn for polynomial-only shapes (and all shapes when n*moduli <= 160), at the boundary-directed positions otherwise (first/last two "
+            "of every modulus row, around the last partial block for block sizes 2..128); poly -> bool one-hot at every position; a failing batch line is "
+            "expanded into its single evaluations for the report; class = backend:mode:root:difference class:degree class",
     "trusted_base": props.COMMON_TB + [
         "C++ overload resolution / template matching is observed per generated TU, not modelled (which of poly_p's operator== overloads is chosen is visible in the op name the harness prints)",
         "GCC vector extension: == / != on __m128i/__m256i compare 64-bit lanes and yield all-ones/zero lanes (modelled in cmpWord; observed by the stream in the sse/avx2 builds)",
